@@ -192,11 +192,19 @@ func VerifC03_UnsafeQueryRelTarget() {
 
 // typed query (arity 1 over vPos, arity 2 over vChild+vPos): same model, typed Get pointers
 func vTypedQuery1Walk(W *vWorld, q *vQuerySpec, cached bool, tag string) {
+	vTypedQuery1WalkMid(W, q, cached, tag, nil)
+}
+
+// mid runs between registration and the query (C05: the cache must follow the world)
+func vTypedQuery1WalkMid(W *vWorld, q *vQuerySpec, cached bool, tag string, mid func()) {
 	f := NewFilter1[vPos](W.w)
 	vassume(q.f.mask.Get(W.id[cA].id))
 	f.filter.mask, f.filter.without, f.filter.hasWithout = q.f.mask, q.f.without, q.f.hasWithout
 	if cached {
 		f.Register()
+	}
+	if mid != nil {
+		mid()
 	}
 	qu := f.Query()
 	var visits [vNE]int
@@ -241,6 +249,10 @@ func VerifC05_CachedQuery1Plain() {
 
 // arity 2 with a relation target given in the filter or per query; cached or not
 func vTypedQuery2Rel(W *vWorld, q *vQuerySpec, cached, perQuery bool, tag string) {
+	vTypedQuery2RelMid(W, q, cached, perQuery, tag, nil)
+}
+
+func vTypedQuery2RelMid(W *vWorld, q *vQuerySpec, cached, perQuery bool, tag string, mid func()) {
 	f := NewFilter2[vChild, vPos](W.w)
 	vassume(q.f.mask.Get(W.id[cA].id) && q.relComp == cR1)
 	f.filter.mask, f.filter.without, f.filter.hasWithout = q.f.mask, q.f.without, q.f.hasWithout
@@ -257,6 +269,10 @@ func vTypedQuery2Rel(W *vWorld, q *vQuerySpec, cached, perQuery bool, tag string
 	}
 	if cached {
 		f.Register()
+	}
+	if mid != nil {
+		mid()
+		ok = W.targetOK(q.target) // the operation may have removed the target
 	}
 	if perQuery && !ok {
 		vcheck(tag+"/dead-target-rejected", vpanics(func() { f.Query(rel...) }))
@@ -310,3 +326,79 @@ func VerifC05_CachedQuery2RelPerQuery() {
 	vTypedQuery2Rel(W, W.arbQuerySpec(true), true, true, "cached")
 	vreach("end")
 }
+
+// ---- C05-H1: register, then one structural operation (new table, recycled table,
+// refilled empty table, target death, Shrink), then the cached result must still be the model set.
+
+// small structural scenarios (model kept in step with the real world)
+func (W *vWorld) cacheScenario(k int) {
+	vMode = 1
+	firstAlive := func(skip int) Entity {
+		n := 0
+		for j := 0; j < W.n; j++ {
+			if W.e[j].alive && W.e[j].has[cA] && !W.e[j].has[cR1] {
+				if n == skip {
+					return W.e[j].h
+				}
+				n++
+			}
+		}
+		return Entity{}
+	}
+	switch k {
+	case 0, 1: // a new child of parent k: fills an emptied table or creates one
+		if W.n < vNE {
+			i := W.create([]int{cR1, cA}, firstAlive(k), Entity{})
+			W.havocValues(i)
+		}
+	case 2: // child without target
+		if W.n < vNE {
+			i := W.create([]int{cR1, cA}, Entity{}, Entity{})
+			W.havocValues(i)
+		}
+	case 3: // a two-relation child: new table in {R1,R2}
+		if W.n < vNE {
+			i := W.create([]int{cR1, cR2}, firstAlive(1), firstAlive(0))
+			W.havocValues(i)
+		}
+	case 4, 5: // a target dies: its tables are emptied into the zero-target table and freed
+		for j := 0; j < W.n; j++ {
+			if W.e[j].alive && W.e[j].h == firstAlive(k-4) {
+				W.removeEntity(j)
+				break
+			}
+		}
+	case 6:
+		vclockbound(3599_000_000_000)
+		W.w.Shrink()
+	case 7: // target dies, then its freed table is recycled for another target
+		for j := 0; j < W.n; j++ {
+			if W.e[j].alive && W.e[j].h == firstAlive(1) {
+				W.removeEntity(j)
+				break
+			}
+		}
+		if W.n < vNE {
+			i := W.create([]int{cA}, Entity{}, Entity{})
+			W.havocValues(i)
+			if W.n < vNE {
+				c := W.create([]int{cR1, cA}, W.e[i].h, Entity{})
+				W.havocValues(c)
+			}
+		}
+	}
+}
+
+func vCachedAfterOp(rel bool) {
+	W := vShapeFor(1)
+	q := W.arbQuerySpec(rel)
+	mid := func() { W.cacheScenario(vPick("scenario", 8)) }
+	if rel {
+		vTypedQuery2RelMid(W, q, true, vPick("perquery", 2) == 1, "cached", mid)
+	} else {
+		vTypedQuery1WalkMid(W, q, true, "cached", mid)
+	}
+	vreach("end")
+}
+func VerifC05_CachedAfterOp()    { vCachedAfterOp(false) }
+func VerifC05_CachedAfterOpRel() { vCachedAfterOp(true) }
